@@ -88,7 +88,8 @@ Record obs : Type := mkObs {
   b_enq_rdy : option bool; b_deq_rdy : option bool;          (* observed rdy / val *)
   b_enq_fire : bool; b_deq_fire : bool;                      (* observed transfers *)
   b_out : Z;                                                 (* observed delivered message (meaningful iff b_deq_fire) *)
-  b_count : option Z }.                                      (* observed occupancy *)
+  b_count : option Z;                                        (* observed occupancy *)
+  b_head : bool }.                                           (* b_out is also valid as a peek-like data output whenever rdy/val is up *)
 
 Definition optb_agrees (x : option bool) (y : bool) : bool :=
   match x with None => true | Some b => Bool.eqb b y end.
@@ -101,6 +102,13 @@ Definition obs_matches (c : obs) (f : fout Z) : bool :=
   match f_msg f with Some m => (b_out c =? m) | None => true end &&
   optz_agrees (b_count c) (Z.of_nat (f_count f)).
 
+(* the data output a queue shows while its deq_rdy / val is up (deq.ret, send.msg, peek): the message the next
+   dequeue delivers = the oldest queued one, or for a bypass queue that is empty the message being accepted *)
+Definition fifo_head {M} (q : list M) (o : offer M) (f : fout M) : option M :=
+  if f_deq_rdy f then hd_error (if f_enq_fire f then q ++ [o_msg o] else q) else None.
+Definition head_ok (c : obs) (h : option Z) : bool :=
+  if b_head c then match h with Some m => (b_out c =? m) | None => true end else true.
+
 (* index of the first cycle at which the observed history leaves the specification; None = conforms *)
 Fixpoint fifo_first_bad (k : qkind) (n : nat) (q : list Z) (i : nat) (h : list obs) : option nat :=
   match h with
@@ -108,7 +116,8 @@ Fixpoint fifo_first_bad (k : qkind) (n : nat) (q : list Z) (i : nat) (h : list o
   | c :: r =>
       if b_rst c then fifo_first_bad k n [] (S i) r
       else let '(q', f) := fifo_step k n q (mkOffer (b_enq c) (b_msg c) (b_deq c)) in
-           if obs_matches c f then fifo_first_bad k n q' (S i) r else Some i
+           if obs_matches c f && head_ok c (fifo_head q (mkOffer (b_enq c) (b_msg c) (b_deq c)) f)
+           then fifo_first_bad k n q' (S i) r else Some i
   end.
 Definition fifo_conforms (k : qkind) (n : nat) (h : list obs) : bool :=
   match fifo_first_bad k n [] 0%nat h with None => true | Some _ => false end.
